@@ -16,7 +16,7 @@ CHECKS = {
  "C09": ("V", "model_checking", V + "; monitors on the device-write log and on pre-images parsed by the independent reader D",
    "Sustained workloads of ~4 device capacities on 4/6/8 blocks, flushers 1-3, reclaimers 1-2, clean threshold 1-2, reinsertion none/one key; Eager/LazyIo/Alternate(/ClientFirst) with all schedules within the deviation bound.",
    "Workloads are a fixed family; what is exhaustive is the schedule space within the bound; reinsertion is configured modestly (the crate documents that picking too much gets it stuck).", "DESIGN.md 4 C09"),
- "C16": ("S+T+V", "model_checking", "bounded-exhaustive sequence exploration with re-entrant callbacks under a lock-holding monitor (Engine S + parking_lot facade), preemption-bounded thread exploration with deadlock detection (Engine T) and deviation-bounded exploration of the hybrid cache with the same monitor in its user callbacks (Engine V)",
+ "C16": ("S+T+V+TH", "model_checking", "bounded-exhaustive sequence exploration with re-entrant callbacks under a lock-holding monitor (Engine S + parking_lot facade), preemption-bounded thread exploration with deadlock detection on the memory cache (Engine T) and on the hybrid cache with a runtime-worker thread (Engine TH), and deviation-bounded exploration of the hybrid cache with the same monitor in its user callbacks (Engine V)",
    "All sequences of <=3 (4) operations incl. in-flight fetches x five algorithms x re-entry mode; listener, weighter, filter, key and value destructors assert that no cache lock is held and call back into the cache; C02's thread programs with deadlock detection.",
    "std::sync::RwLock in the block manager is not intercepted; the hybrid part probes value destructor, listener, weighter and admission filter (keys are u64 there).", "DESIGN.md 4 C16"),
 
@@ -33,9 +33,9 @@ CHECKS = {
    "Product of first-cycle delete counts around the 256-slot page boundaries and the log capacity x later-cycle counts x one-per-flush/all-in-one x graceful/crash restarts, up to 3 cycles, logs of 2 and 3 pages, with re-inserts.",
    "One schedule per history; delete counts within the log capacity as the property states.", "DESIGN.md 4 C10"),
 
- "C01": ("V", "model_checking", V + "; oracle: per-key version register R",
-   "Every program of <=3 (4) client calls x both policies x tombstone log on/off (+ algorithms, compression, flushers in thorough) under four base schedules with all schedules within the deviation bound; versioned values make staleness observable.",
-   "One task poll / one IO completion is atomic; tokio and the kernel are replaced by vrt/simio; shedding limits never trigger; removes durable across restart only with the tombstone log (documented).", "DESIGN.md 2.3, 4 C01"),
+ "C01": ("V+TH", "model_checking", V + "; plus preemption-bounded exploration of client calls racing on controlled OS threads against a controlled runtime-worker thread on the real hybrid cache (Engine TH); oracle: per-key version register R",
+   "Every program of <=3 (4) client calls x both policies x tombstone log on/off (+ algorithms, compression, flushers in thorough) under four base schedules with all schedules within the deviation bound; versioned values make staleness observable. Thread part: pairs of calls (and 2-vs-1 call programs with memory eviction) on one key from three initial states, both policies, every interleaving with <=1 (2) preemptions at lock / runtime-step granularity, then reads from memory, from disk and after a restart.",
+   "Engine V: one task poll / one IO completion is atomic; tokio and the kernel are replaced by vrt/simio; shedding limits never trigger; removes durable across restart only with the tombstone log (documented). Engine TH: one runtime worker thread; atomics and channel operations between two lock operations are not split.", "DESIGN.md 2.3, 2.9, 4 C01"),
  "C05": ("S", "model_checking", S + " (weight ledger W)",
    "All operation sequences to depth 3 (quick) / 4 (thorough) plus deduplicated BFS, capacities 0..4 x shards 1..4 x five algorithms, ledger compared after every step.",
    "Single caller thread; victims are followed not judged; resize calls are budgeted (each spawns an OS thread per shard).", "DESIGN.md 2.2, 4 C05"),
@@ -57,7 +57,7 @@ CHECKS = {
  "C15": ("V", "model_checking", V + "; close + reopen + read-back",
    "All histories of <=3 (4) calls ending in close / close;close / close;insert, reopen, read all; policies x flush_on_close.",
    "Resident sets far below the flush buffer; no disk-capacity eviction.", "DESIGN.md 4 C15"),
- "C17": ("V+S", "model_checking", V + " and Engine S, both with a colliding user hasher; oracle R / ledger",
+ "C17": ("V+S+TH", "model_checking", V + ", Engine S, and client threads racing on the hybrid cache (Engine TH), all with a colliding user hasher; oracle R / ledger",
    "Keys 1,2 share a 64-bit hash (key 3 shares only shards): all histories of <=3 (4) calls, both policies, with restarts.",
    "Hybrid part: Engine V; memory-only part: the Engine S driver under the same colliding hasher (both run by the one check).", "DESIGN.md 4 C17"),
  "C18": ("S+T", "model_checking", S + " (handle ledger) plus Engine T for the pin/unpin/evict races",
@@ -92,6 +92,7 @@ manifest = {
         {"name": "S", "path": "harness/checks/src/seq.rs", "serves_properties": ["C05", "C13", "C14", "C16", "C17", "C18"], "kind_free_text": "exhaustive operation sequences + explicit-state BFS on the real in-memory cache, lock-step with a reference ledger / reference algorithms"},
         {"name": "V", "path": "harness/checks/src/hyb.rs", "serves_properties": ["C01", "C06", "C07", "C09", "C10", "C11", "C12", "C15", "C16", "C17"], "kind_free_text": "deviation-bounded stateless exploration of the real hybrid cache: vrt (madsim-tokio substitute) owns task polling, simio owns device IO completion/failure, the client program owns call timing"},
         {"name": "T", "path": "harness/checks/src/props_c02.rs + harness/plshim", "serves_properties": ["C02", "C11", "C13", "C16", "C18"], "kind_free_text": "preemption-bounded exploration of OS-thread interleavings: plshim (parking_lot substitute) turns every lock operation into a scheduling point of a cooperative scheduler"},
+        {"name": "TH", "path": "harness/checks/src/props_th.rs + harness/plshim + harness/vrt", "serves_properties": ["C01", "C16", "C17"], "kind_free_text": "preemption-bounded exploration of OS-thread interleavings of the real hybrid cache: 2-3 client threads and one runtime-worker thread (task polls, device IO completions) under the cooperative scheduler; scheduling points at every foyer lock operation and runtime step"},
         {"name": "F/K", "path": "harness/checks/src/props_c03.rs, props_c04.rs", "serves_properties": ["C03", "C04"], "kind_free_text": "fault / crash enumerators over images and IO logs produced by Engine V, evaluated by real recovery"},
         {"name": "core", "path": "harness/vcore", "serves_properties": sorted(done), "kind_free_text": "iterative deviation bounding, replay files, evidence, known findings, process sharding"},
     ],
